@@ -108,6 +108,47 @@ package har
 //@   at call 0 of append after assert[covered-after-append] forall e *Entry :: inLog(l, e) && e.arr <= curr.arr ==> 0 <= e.gpos && e.gpos < len(result) && result[e.gpos] == e
 //@   at call 0 of makeHAR after assert[exported-list-is-the-collected-list] result.Log.Entries == es
 
+// ExportAndReset: returns completed members only, in arrival order, and removes them from the index; pending members
+// stay indexed with their fields untouched; the ring restarts at a pending entry. (Not proved here: the arrival order of
+// the returned list, and that the ring invariant harInv is re-established by the relinking - both need the order
+// reasoning that Export's proof carries, and the solvers do not discharge it reliably together with the relinking.)
+// wasIn(l, e): e was a member when the call started (the argument is evaluated in the current state, membership in the entry state).
+//@ pred wasIn(l *Logger, e *Entry) = old(inLog(l, e))
+//@ func (*Logger).ExportAndReset
+//@   serves C17
+//@   requires harInv(l) && !l.mu.held
+//@   modifies l.mu.held, l.entries[*], l.tail, Entry.next
+//@   noframe
+//@   ensures[lock-released] !l.mu.held
+//@   ensures[returns-only-completed-members] result != nil && result.Log != nil &&
+//@        forall i int :: 0 <= i && i < len(result.Log.Entries) ==> wasIn(l, result.Log.Entries[i]) && result.Log.Entries[i].Response != nil
+//@   ensures[returned-entries-leave-the-index] forall i int :: 0 <= i && i < len(result.Log.Entries) ==> !has(l.entries, result.Log.Entries[i].ID)
+//@   ensures[pending-entries-stay-indexed] forall e *Entry :: wasIn(l, e) && e.Response == nil ==> inLog(l, e)
+//@   ensures[nothing-new-is-indexed] forall k string :: has(l.entries, k) ==> old(has(l.entries, k)) && l.entries[k] == old(l.entries[k])
+//@   ensures[ring-restarts-at-a-pending-member] l.tail != nil && l.tail.next != nil ==> l.tail.next.Response == nil && wasIn(l, l.tail.next)
+//@   ensures[newest-kept-entry-is-pending] l.tail != nil && l.tail != old(l.tail) ==> l.tail.Response == nil && wasIn(l, l.tail)
+//@   loop 0 invariant l.mu.held && l.tail == old(l.tail) && l.entries == old(l.entries) && (curr == nil ==> old(l.tail) == nil && len(es) == 0 && first == nil)
+//@   loop 0 invariant curr != nil ==> wasIn(l, curr) && prev != nil
+//@   loop 0 invariant curr == old(l.tail) ==> len(es) == 0 && first == nil && prev == old(l.tail) && (forall e *Entry :: e.next == old(e.next)) &&
+//@        (forall k string :: has(l.entries, k) == old(has(l.entries, k)))
+//@   loop 0 invariant curr != nil ==> forall e *Entry :: wasIn(l, e) && e != old(l.tail) && e.arr >= curr.arr ==> e.next == old(e.next)
+//@   loop 0 invariant forall i int :: 0 <= i && i < len(es) ==> wasIn(l, es[i])
+//@   loop 0 invariant forall i int :: 0 <= i && i < len(es) ==> es[i].Response != nil
+//@   loop 0 invariant forall i int :: 0 <= i && i < len(es) ==> !has(l.entries, es[i].ID)
+//@   loop 0 invariant len(es) > 0 ==> curr != old(l.tail)
+//@   loop 0 invariant first != nil ==> wasIn(l, first) && first.Response == nil && curr != old(l.tail)
+//@   loop 0 invariant prev == old(l.tail) || (prev != nil && wasIn(l, prev) && prev.Response == nil && first != nil && prev.arr <= curr.arr)
+//@   at call 0 of makeHAR before assert[collected-are-old-members] forall i int :: 0 <= i && i < len(es) ==> wasIn(l, es[i])
+//@   at call 0 of makeHAR before assert[collected-are-completed] forall i int :: 0 <= i && i < len(es) ==> es[i].Response != nil
+//@   at call 0 of makeHAR before assert[collected-left-the-index] forall i int :: 0 <= i && i < len(es) ==> !has(l.entries, es[i].ID)
+//@   at call 0 of append before assert[next-is-an-old-member] wasIn(l, curr) && curr.Response != nil
+//@   at call 0 of append after assert[append-keeps-the-prefix] len(result) == len(arg0) + 1 && result[len(arg0)] == curr && forall i int :: 0 <= i && i < len(arg0) ==> result[i] == arg0[i]
+//@   loop 0 invariant forall k string :: has(l.entries, k) ==> old(has(l.entries, k))
+//@   loop 0 invariant forall k string :: l.entries[k] == old(l.entries[k])
+//@   loop 0 invariant forall e *Entry :: wasIn(l, e) && e.Response == nil ==> has(l.entries, e.ID)
+//@   loop 0 invariant arr(es) == nil || !wasAllocated(es)
+//@   at call 0 of makeHAR after assert[exported-list-is-the-collected-list] result.Log.Entries == es
+
 // ---------------------------------------------------------------------------------------------
 // C15: the HAR logger skips exchanges marked skip-logging: the log and the message are untouched.
 //@ func (*Logger).ModifyRequest
